@@ -89,6 +89,25 @@ def classify(body, local, depth=0):
     return res
 
 
+def result_producers(body):
+    """Blocks in which the function's Result is produced other than by propagating/constructing an error:
+    `_0 = Ok(..)`, `_0 = <moved value>` or `_0 = call(..)` (anything but from_residual / Err(..))."""
+    out = []
+    for bb in sorted(body.normal_blocks()):
+        for s in body.stmts(bb):
+            if s.get("k") == "assign" and s["p"]["l"] == 0 and not s["p"]["p"]:
+                r = s["r"]
+                if r.get("k") == "agg" and r.get("adt") == "std::result::Result" and r.get("vname") == "Err":
+                    continue
+                out.append((bb, "Ok(..)" if r.get("k") == "agg" else "value"))
+        t = body.term(bb)
+        if t["k"] == "call" and t.get("dest") and t["dest"]["l"] == 0 and not t["dest"]["p"]:
+            cn = strip_generics(t["callee"].get("def", ""))
+            if not cn.endswith("FromResidual::from_residual"):
+                out.append((bb, "call " + cn.split("::")[-1]))
+    return out
+
+
 def try_info(body, res_local):
     """For `res?`: returns {'continue_edges': [(bb, succ)], 'payload': set(locals holding the Ok payload)} or None."""
     aliases, sinks = flow.track(body, {res_local}, casts=())
